@@ -183,6 +183,7 @@ def run_scenario(sc, cfg, reorder):
         rec = dict(step=k, arrays=project(pas, sc), results=query_all(nn, pas, cfg))
         if reorder:
             rec['reorder'] = reorder_all(nn, pas, sc)
+            rec['arrays_reordered'] = project(pas, sc)
             nn.update_domain()
             nn.update()
             rec['arrays_after'] = project(pas, sc)
